@@ -63,14 +63,29 @@ Definition round_away (x : f32) : Z :=
 Definition b_cvt (f : f32) : Z := u32 (round_away (bmul c_255 (b_clamp f c_zero c_one))).
 Definition b_cvt4 (x y z w : f32) : Z := pack (b_cvt x) (b_cvt y) (b_cvt z) (b_cvt w).
 
-(* pcg32_biased_float_distribution(seed, sequence, lower, upper): n-th value *)
-Definition b_pcg_float (seed seq : Z) (lower upper : f32) (n : nat) : f32 :=
+(* pcg32_biased_float_distribution(lower, upper) on the generator output k:
+   diff = upper - lower (constructor);  (scale * rng()) * diff + lower *)
+Definition b_pcg_float_k (lower upper : f32) (k : Z) : f32 :=
   let diff := bsub upper lower in
-  badd (bmul (bmul c_scale (b_of_u32 (pcg_nth seed seq n))) diff) lower.
-(* uniform_real_distribution<float>(l,u) drawing from a pcg32 seeded (seed, sequence) *)
-Definition b_uniform (seed seq : Z) (l u : f32) (n : nat) : f32 :=
+  badd (bmul (bmul c_scale (b_of_u32 k)) diff) lower.
+(* ... n-th value after rng.seed(seed, sequence) *)
+Definition b_pcg_float (seed seq : Z) (lower upper : f32) (n : nat) : f32 :=
+  b_pcg_float_k lower upper (pcg_nth seed seq n).
+(* the operation order of seeded change C07-5: diff = (upper - lower) * scale;  rng() * diff + lower *)
+Definition b_pcg_float_scaled_k (lower upper : f32) (k : Z) : f32 :=
+  let diff := bmul (bsub upper lower) c_scale in
+  badd (bmul (b_of_u32 k) diff) lower.
+(* uniform_real_distribution<float>(l,u) on the generator output k (g.min() = 0, g.max() = 2^32-1), repaired order:
+   range = float(g.max() - g.min());  l + ((g() - g.min()) / range) * (u - l) *)
+Definition b_uniform_k (l u : f32) (k : Z) : f32 :=
+  let range := b_of_u32 (4294967295 - 0) in
+  badd l (bmul (bdiv (b_of_u32 (k - 0)) range) (bsub u l)).
+(* before the repair: scale = (u - l) / float(g.max() - g.min());  l + (g() - g.min()) * scale *)
+Definition b_uniform_old_k (l u : f32) (k : Z) : f32 :=
   let scale := bdiv (bsub u l) (b_of_u32 (4294967295 - 0)) in
-  badd l (bmul (b_of_u32 (pcg_nth seed seq n - 0)) scale).
+  badd l (bmul (b_of_u32 (k - 0)) scale).
+Definition b_uniform (seed seq : Z) (l u : f32) (n : nat) : f32 :=
+  b_uniform_k l u (pcg_nth seed seq n).
 (* makeRandomColor channel *)
 Definition b_color (i m : Z) : f32 :=
   bmul (b_of_u32 (color_g i mod m)) (bdiv c_one (b_of_u32 (m - 1))).
@@ -92,6 +107,9 @@ Definition run_case (fn : Z) (a : list Z) : Z :=
   | 12, [seed; seq; lo; hi; n] => to_bits (b_uniform seed seq (of_bits lo) (of_bits hi) (Z.to_nat n))
   | 13, [i; m] => to_bits (b_color i m)
   | 16, [] => to_bits c_deg2rad
+  | 17, [lo; hi; k] => to_bits (b_pcg_float_k (of_bits lo) (of_bits hi) k)
+  | 18, [lo; hi; k] => to_bits (b_uniform_k (of_bits lo) (of_bits hi) k)
+  | 19, [lo; hi; k] => to_bits (b_uniform_old_k (of_bits lo) (of_bits hi) k)
   | _, _ => -1
   end.
 Definition run_cases (cs : list (Z * list Z)) : list Z := map (fun c => run_case (fst c) (snd c)) cs.
